@@ -7,7 +7,8 @@ QiM == {3}
 NewM == {2}
 C1 == {7}
 NC == {8}
-DepthQ == <<2, 3, 4, 5>>
+DepthQ == <<1, 2, 3, 4>>
+DepthA == <<2, 3, 4, 5>>
 MultQ == <<100, 110, 120, 150>>
 WS1 == {1}
 WS2 == {1, 2}
